@@ -149,6 +149,17 @@ namespace
             }
         }
         if (chunk == 0)
+            if (const char *ro = ReadOnly::hold(enc.data(), enc.size()))
+            {
+                // the same bytes held in read-only memory that ends at an inaccessible page
+                T r{};
+                mc::crash_context("C09.new.decode_readonly_input.%s", cls.c_str());
+                int left = decode(ro, enc.size(), r, threw);
+                if (threw || !eq(r, v) || left != 0)
+                    mc::violation("C09.new.roundtrip_readonly_input." + cls, "%s %s: decoding from read-only memory gives %s, %d bytes left", tn.c_str(), what,
+                                  eq(r, v) ? "v" : "another value", left);
+            }
+        if (chunk == 0)
         {
             // decode in place (deserializer::deserialize(T&)) into an object that already holds a DIFFERENT value:
             // the result is v, nothing of the old content survives (containers are replaced, not appended to)
@@ -440,6 +451,164 @@ namespace
     }
 }
 
+namespace
+{
+    // ---- nested serialize() of the same type from inside serialize_reflect() ---------------------------
+    struct Envelope
+    {
+        u8 id = 0;
+        std::vector<Envelope> kids;
+        u16 tail = 0;
+        template <class A> void serialize_reflect(A &a) const
+        {
+            a &id;
+            u16 n = (u16)kids.size();
+            a &n;
+            for (const Envelope &k : kids)
+            {
+                std::string b = igris::serialize(k); // nested top-level call, same T, outer call still running
+                std::vector<u8> blob(b.begin(), b.end());
+                a &blob;
+            }
+            a &tail;
+        }
+        template <class A> void serialize_reflect(A &a)
+        {
+            a &id;
+            u16 n = 0;
+            a &n;
+            kids.clear();
+            for (int i = 0; i < n; i++)
+            {
+                std::vector<u8> blob;
+                a &blob;
+                kids.push_back(igris::deserialize<Envelope>(std::string(blob.begin(), blob.end()))); // nested top-level decode
+            }
+            a &tail;
+        }
+    };
+    static void nested_case()
+    {
+        const int H = 4;
+        long n = tree_count(H);
+        long i = mc::choose((int)n);
+        int counter = 0;
+        Envelope v = make_tree<Envelope>(i, H, counter);
+        counter = 100;
+        Envelope w = make_tree<Envelope>((i + 1) % n, H, counter);
+        std::string ref, refw;
+        ref_tree(ref, v);
+        ref_tree(refw, w);
+        mc::describe("new[" C09_COMPILER "] envelope tree #%ld/%ld (height %d, %d nodes, %zu bytes): sub-records encoded by nested igris::serialize() inside serialize_reflect()",
+                     i, n, tree_height(v), counter - 100, ref.size());
+        if (!v.kids.empty())
+            mc::nontrivial();
+        mc::crash_context("C09.new.nested_serialize");
+        std::string enc = igris::serialize(v), encw = igris::serialize(w), again = igris::serialize(v);
+        mc::outcome(mc::fmt("nested/%zu", enc.size()));
+        if (enc != ref || encw != refw || again != ref)
+            mc::violation("C09.new.layout.nested_serialize", "tree #%ld: serialize gives %zu bytes %s (second call %zu bytes), stated layout %zu bytes %s", i, enc.size(),
+                          hexs(enc, 32).c_str(), again.size(), ref.size(), hexs(ref, 32).c_str());
+        std::string cat = ref + refw;
+        Exact e(cat.data(), cat.size());
+        igris::deserialize_buffer_storage st(igris::buffer(e.p, e.n));
+        mc::crash_context("C09.new.nested_deserialize");
+        Envelope a = igris::deserialize<Envelope>(st);
+        int mid = st.avail();
+        Envelope b = v; // in place over another tree
+        igris::deserializer<igris::deserialize_buffer_storage> ar(st);
+        ar.deserialize(b);
+        if (!eq_tree(a, v) || !eq_tree(b, w) || mid != (int)refw.size() || st.avail() != 0)
+            mc::violation("C09.new.roundtrip.nested_serialize", "tree #%ld then #%ld: first %s, second %s, left %d then %d", i, (i + 1) % n, eq_tree(a, v) ? "ok" : "WRONG",
+                          eq_tree(b, w) ? "ok" : "WRONG", mid, st.avail());
+        Envelope r1 = igris::deserialize<Envelope>(enc);
+        if (!eq_tree(r1, v))
+            mc::violation("C09.new.roundtrip.nested_serialize", "tree #%ld: deserialize<T>(serialize(v)) != v", i);
+        // every truncation point of the tree's encoding through the bounded reader
+        for (size_t k = 0; k < ref.size(); k++)
+        {
+            Exact t(ref.data(), k);
+            igris::deserialize_buffer_storage ts(igris::buffer(t.p, t.n));
+            mc::crash_context("C09.new.nested_deserialize_truncated");
+            Envelope x;
+            keep(&x);
+            try
+            {
+                x = igris::deserialize<Envelope>(ts);
+            }
+            catch (mc::Abort &)
+            {
+                throw;
+            }
+            catch (...)
+            {
+            }
+            keep(&x);
+            if (ts.avail() < 0 || ts.avail() > (int)k)
+                mc::violation("C09.new.truncated.cursor.nested_serialize", "tree #%ld, %zu of %zu bytes: reader reports %d left", i, k, ref.size(), ts.avail());
+        }
+        mc::more_cases(ref.size(), ref.size());
+        mc::crash_context("C09.new.harness");
+    }
+
+    // ---- two storages / archives of the same class alive at once, used alternately ----
+    static void interleaved_case()
+    {
+        static const size_t L[4] = {0, 1, 16, 300};
+        int c = mc::choose(256);
+        auto bytes = [](size_t n, int pat) {
+            std::vector<u8> v(n);
+            for (size_t i = 0; i < n; i++)
+                v[i] = pat ? (u8)0xFF : (u8)(i * 31 + 7);
+            return v;
+        };
+        std::vector<u8> A[2] = {bytes(L[c & 3], 0), bytes(L[c >> 2 & 3], 1)}, B[2] = {bytes(L[c >> 4 & 3], 1), bytes(L[c >> 6 & 3], 0)};
+        std::vector<u16> X = {1, 2, 3}, Y = {0xFFFF};
+        mc::describe("new[" C09_COMPILER "] two storages / archives used alternately, vectors of %zu,%zu and %zu,%zu bytes", A[0].size(), A[1].size(), B[0].size(),
+                     B[1].size());
+        mc::nontrivial();
+        std::string ra, rb;
+        ref_enc(ra, A[0]);
+        ref_enc(ra, X);
+        ref_enc(ra, A[1]);
+        ref_enc(rb, B[0]);
+        ref_enc(rb, Y);
+        ref_enc(rb, B[1]);
+        mc::crash_context("C09.new.interleaved");
+        {
+            igris::string_storage s1, s2;
+            igris::serializer<igris::string_storage> w1(s1), w2(s2);
+            w1 &A[0];
+            w2 &B[0];
+            bool top = igris::serialize(A[1]).size() == A[1].size() + 2;
+            w2 &Y;
+            w1 &X;
+            igris::serialize(A[1], s1);
+            w2 &B[1];
+            if (!top || s1.storage() != ra || s2.storage() != rb)
+                mc::violation("C09.new.interleaved.writers", "two storages written alternately: an output differs from its own values' encoding");
+        }
+        {
+            Exact e1(ra.data(), ra.size()), e2(rb.data(), rb.size());
+            igris::deserialize_buffer_storage t1(igris::buffer(e1.p, e1.n)), t2(igris::buffer(e2.p, e2.n));
+            igris::deserializer<igris::deserialize_buffer_storage> r1(t1), r2(t2);
+            std::vector<u8> a0, a1, b0, b1;
+            std::vector<u16> x, y;
+            r1 &a0;
+            r2 &b0;
+            r2 &y;
+            bool top = eq(igris::deserialize<std::vector<u8>>(igris::serialize(B[1])), B[1]);
+            x = igris::deserialize<std::vector<u16>>(t1);
+            r1 &a1;
+            r2 &b1;
+            if (!top || !eq(a0, A[0]) || !eq(a1, A[1]) || !eq(b0, B[0]) || !eq(b1, B[1]) || !eq(x, X) || !eq(y, Y) || t1.avail() != 0 || t2.avail() != 0)
+                mc::violation("C09.new.interleaved.readers", "two bounded readers used alternately: a decoded value or a final position is wrong");
+        }
+        mc::outcome(mc::fmt("interleaved/%zu/%zu", ra.size(), rb.size()));
+        mc::crash_context("C09.new.harness");
+    }
+}
+
 #ifdef EXTRAS
 const char *const c09::framework = "new";
 #endif
@@ -458,6 +627,8 @@ MC_INIT
 
     mc::add_check("new.storage_reader", storage_reader_case);
     mc::add_check("new.relocated_storages", relocated_case);
+    mc::add_check("new.nested_serialize", nested_case);
+    mc::add_check("new.interleaved_archives", interleaved_case);
     goldens().push_back({"i32", [] { golden<i32>("i32 0x01020304", 0x01020304, B("\x04\x03\x02\x01")); }});
     goldens().push_back({"u64", [] { golden<u64>("u64 0x0102030405060708", 0x0102030405060708ull, B("\x08\x07\x06\x05\x04\x03\x02\x01")); }});
     goldens().push_back({"i16 -2", [] { golden<i16>("i16 -2", -2, B("\xfe\xff")); }});
